@@ -37,9 +37,22 @@ type Obligation struct {
 	Model  string
 }
 
-func (o *Obligation) Query(withModel bool) string {
+func (o *Obligation) Query(withModel bool) string { return o.QueryVariant(0) }
+
+// HasVariant: the goal has a second, logically equivalent formulation (with the redundant ground instances of the
+// quantifiers that are to be proved)
+func (o *Obligation) HasVariant() bool {
+	return o.sc != nil && (strings.Contains(o.cond.S, "(govc_opt ") || strings.Contains(o.sc.Prefix(o.mark), "(govc_opt "))
+}
+
+func (o *Obligation) QueryVariant(variant int) string {
 	var b strings.Builder
 	b.WriteString("(set-option :produce-models true)\n(set-logic ALL)\n")
+	if variant == 0 {
+		b.WriteString("(define-fun govc_opt ((b Bool)) Bool true)\n")
+	} else {
+		b.WriteString("(define-fun govc_opt ((b Bool)) Bool b)\n")
+	}
 	b.WriteString(o.sc.Prefix(o.mark))
 	b.WriteString("\n(assert " + o.reach.S + ")\n")
 	if o.Expect != "sat" && o.Expect != "notunsat" {
@@ -88,9 +101,12 @@ type frame struct {
 	reachMemo   map[[2]int]bool
 	curIns      ssa.Instruction
 	own         bool // inlined anonymous closure of the function under verification: its obligations count
+	ownCtx      bool         // inlined helper called from the function's own code with one of its closures
+	defers      []*ssa.Defer // deferred calls that run at every exit (see deferRunsAtEveryExit), in registration order
 }
 
 type FnVC struct {
+	optInst        bool     // set by quant() for the next underBinder call
 	unboundClauses []string // postcondition / iteration clauses that did not bind (reported, no obligation)
 	w     *World
 	fn    *ssa.Function
@@ -110,7 +126,7 @@ type FnVC struct {
 	exitVal   Val
 	exitState *State
 	props     []string
-	inlining  map[*ssa.Function]bool
+	inlining  map[*ssa.Function]int
 	depsCache map[*ssa.Function][]famSort
 	freshRefs map[string]bool
 	inTypeInv bool
@@ -123,7 +139,7 @@ type FnVC struct {
 
 func NewFnVC(w *World, fn *ssa.Function) *FnVC {
 	sc := NewScript()
-	v := &FnVC{w: w, fn: fn, sc: sc, idCnt: map[string]int{}, notes: map[string]bool{}, ufs: map[string]bool{}, glob: map[string]Term{}, inlining: map[*ssa.Function]bool{}, freshRefs: map[string]bool{}}
+	v := &FnVC{w: w, fn: fn, sc: sc, idCnt: map[string]int{}, notes: map[string]bool{}, ufs: map[string]bool{}, glob: map[string]Term{}, inlining: map[*ssa.Function]int{}, freshRefs: map[string]bool{}}
 	v.he = &HeapEnv{sc: sc, sorts: map[string]Sort{}}
 	v.he.immutable = func(fam string) bool {
 		for p := range w.Contracts.Immutable {
@@ -180,7 +196,7 @@ func (v *FnVC) Build() (err error) {
 	}
 	// global axioms
 	for _, ax := range v.w.Contracts.Axioms {
-		env := &specEnv{v: v, fr: fr, st: st, old: st}
+		env := &specEnv{v: v, fr: fr, st: st, old: st, pol: -1}
 		if ax.Pkg != "" {
 			if p := env.pkgOfFn(); p == nil || shortPkg(p.Path()) != ax.Pkg {
 				continue
@@ -202,7 +218,7 @@ func (v *FnVC) Build() (err error) {
 	// requires
 	if v.con != nil {
 		for _, c := range v.con.Requires {
-			env := &specEnv{v: v, fr: fr, st: st, old: st}
+			env := &specEnv{v: v, fr: fr, st: st, old: st, pol: -1}
 			t := env.evalBool(c.Expr)
 			v.sc.Assert(t)
 		}
@@ -239,7 +255,7 @@ func (v *FnVC) Build() (err error) {
 		v.exitVal = v.mergeRets(fr.rets, v.fn.Signature.Results())
 		if v.con != nil {
 			for _, c := range v.con.Ensures {
-				env := &specEnv{v: v, fr: fr, st: v.exitState, old: fr.entry, result: v.exitVal, resType: v.fn.Signature.Results()}
+				env := &specEnv{v: v, fr: fr, st: v.exitState, old: fr.entry, result: v.exitVal, resType: v.fn.Signature.Results(), pol: 1}
 				t, bound := v.evalClause(env, c)
 				if !bound {
 					continue
@@ -446,7 +462,7 @@ func (v *FnVC) typeInvariants(x Sc, t types.Type, st *State, guard Term) {
 	v.inTypeInv = true
 	defer func() { v.inTypeInv = false }()
 	for _, ti := range invs {
-		env := &specEnv{v: v, fr: v.top, st: st, old: st, bound: map[string]specVal{ti.Var: {V: x, T: t}}, specPkg: v.w.pkgByShort(ti.Clause.Pkg)}
+		env := &specEnv{v: v, fr: v.top, st: st, old: st, bound: map[string]specVal{ti.Var: {V: x, T: t}}, specPkg: v.w.pkgByShort(ti.Clause.Pkg), pol: -1}
 		env.guard = And(guard, Not(Eq(x.T, tZero)))
 		body := env.evalBool(ti.Clause.Expr)
 		v.sc.Assert(Implies(And(guard, Not(Eq(x.T, tZero))), body))
@@ -1279,7 +1295,7 @@ func (v *FnVC) enterLoop(fr *frame, li *loopInfo, b *ssa.BasicBlock, st *State, 
 		}
 	}
 	for _, c := range invs {
-		env := &specEnv{v: v, fr: fr, st: preState, old: fr.entry, over: ov, loop: li}
+		env := &specEnv{v: v, fr: fr, st: preState, old: fr.entry, over: ov, loop: li, pol: 1}
 		t := env.evalBool(c.Expr)
 		o := v.addObl("INV-init", fmt.Sprintf("loop%d:%s", li.ordinal, clauseName(c)), b.Instrs[0].Pos(), reach, t, c.Props, "")
 		o.Clause = c
@@ -1379,9 +1395,22 @@ func (v *FnVC) enterLoop(fr *frame, li *loopInfo, b *ssa.BasicBlock, st *State, 
 		}
 	}
 	li.headState = st.clone()
+	// the index the next iteration works on is a term the assumed invariants should be instantiated at (the body
+	// has not been executed yet, so it is not among the index terms seen so far)
+	for _, phi := range phis {
+		if b, ok := under(phi.Type()).(*types.Basic); ok && b.Info()&types.IsInteger != 0 {
+			if sc, ok := fr.vals[phi].(Sc); ok {
+				if phi.Comment == "rangeindex" {
+					v.noteIndex(Add(sc.T, IntLit(1)))
+				} else {
+					v.noteIndex(sc.T)
+				}
+			}
+		}
+	}
 	// 4. assume invariants (user + auto)
 	for _, c := range invs {
-		env := &specEnv{v: v, fr: fr, st: st, old: fr.entry, over: ov2, loop: li}
+		env := &specEnv{v: v, fr: fr, st: st, old: fr.entry, over: ov2, loop: li, pol: -1}
 		t := env.evalBool(c.Expr)
 		v.sc.Assert(Implies(reach, t))
 	}
@@ -1636,7 +1665,7 @@ func (v *FnVC) backEdge(fr *frame, li *loopInfo, from *ssa.BasicBlock, st *State
 			}
 		}
 		for _, c := range v.con.Iterations[li.ordinal] {
-			env := &specEnv{v: v, fr: fr, st: st, old: li.headState, loop: li, over: ovHead, nextOf: nextOf}
+			env := &specEnv{v: v, fr: fr, st: st, old: li.headState, loop: li, over: ovHead, nextOf: nextOf, pol: 1}
 			t, bound := v.evalClause(env, c)
 			if !bound {
 				continue
@@ -1686,7 +1715,7 @@ func (v *FnVC) backEdge(fr *frame, li *loopInfo, from *ssa.BasicBlock, st *State
 		fr.vals[phi] = nv
 	}
 	for _, c := range invs {
-		env := &specEnv{v: v, fr: fr, st: st, old: fr.entry, over: ov, loop: li}
+		env := &specEnv{v: v, fr: fr, st: st, old: fr.entry, over: ov, loop: li, pol: 1}
 		t := env.evalBool(c.Expr)
 		o := v.addObl("INV-pres", fmt.Sprintf("loop%d:%s", li.ordinal, clauseName(c)), from.Instrs[len(from.Instrs)-1].Pos(), ec, t, c.Props, "")
 		o.Clause = c
@@ -1939,7 +1968,7 @@ func (v *FnVC) evalClause(env *specEnv, c *Clause) (t Term, ok bool) {
 	defer func() {
 		if r := recover(); r != nil {
 			if u, isU := r.(unsupportedErr); isU && strings.HasPrefix(u.msg, "spec:") {
-				v.sc.lines = v.sc.lines[:mark]
+				v.sc.rollbackTo(mark)
 				v.unboundClauses = append(v.unboundClauses, clauseName(c)+": "+u.msg)
 				ok = false
 				return
